@@ -5,6 +5,7 @@
 -/
 import Tranp.Lemmas.RulesAst
 import Tranp.Lemmas.C12FixedPy
+import Tranp.Lemmas.C12LexGram
 import Tranp.Generated.RtWitnesses
 
 namespace Tranp.C12
@@ -48,6 +49,21 @@ theorem ast_rt_shipped : Canon gramRules ∧ Canon pyRules := by decide +kernel
 theorem fixed_gram :
     (C12Fixed.compile gramLarkTokens).map Ast.simplify = .ok gramRulesAst ∧ fromAst gramRulesAst = .ok gramRules :=
   ⟨C12Fixed.gram_tree, C12Fixed.gram_literal⟩
+
+/-- The meta-grammar's fixed point starting from the TEXT of data/syntax/gram.lark: the lexer model (C13's `Lexer.tokenize`
+    with the gram token definition) turns the embedded text into tokens whose strings and source maps are those of the token
+    list used by `fixed_gram` (so the only column of that list not recomputed in Lean is the regexp class of each token, which
+    the translator evaluates with the real `re`), and the engine and `from_ast` then reproduce the built-in rules. -/
+theorem fixed_gram_text :
+    (∃ ts, Lexer.tokenize TokenDef.gramDef gramLarkText = .ok ts ∧ ts.map C12Fixed.projLex = gramLarkTokens.map C12Fixed.projTok) ∧
+    (C12Fixed.compile gramLarkTokens).map Ast.simplify = .ok gramRulesAst ∧ fromAst gramRulesAst = .ok gramRules := by
+  refine ⟨?_, C12Fixed.gram_tree, C12Fixed.gram_literal⟩
+  have h := C12Fixed.gram_lex
+  unfold C12Fixed.lexAgrees at h
+  split at h
+  · rename_i ts hts
+    exact ⟨ts, hts, by simpa using h⟩
+  · cases h
 
 /-- Compiling data/syntax/py_gram.lark (its real token list) as `gram_check` does yields, through `render_rules`, exactly the
     text of data/syntax/py_rules.py; the compiled tree is the literal of py_rules.py up to Python's reading of `\'`; and
@@ -107,12 +123,13 @@ theorem text_rt_f7_regression : Canon bareGroup ∧ Canon flatAlt ∧
     pretty flatAlt = ['x', ' ', ':', '=', ' ', 'a', ' ', 'b', ' ', '|', ' ', 'c'] := by
   decide
 
-/-- one recorded witness: the model's printout equals the REAL printout, and the model engine on the REAL tokens of that
-    text gives the rule set back -/
+/-- one recorded witness: the model's printout equals the REAL printout, the lexer model (C13, gram token definition) turns
+    that text into the strings and source maps of the REAL tokens, and the model engine on those tokens gives the rule set
+    back (only the regexp class of each token is not recomputed in Lean) -/
 def rtHolds (w : TEntry × Str × List Tok) : Bool :=
   match fromAst w.1 with
   | .ok g =>
-    decide (pretty g ++ ['\n'] = w.2.1) &&
+    decide (pretty g ++ ['\n'] = w.2.1) && C12Fixed.lexAgrees w.2.1 w.2.2 &&
       decide ((parse gramEnv (100 * (w.2.2.length + 10)) w.2.1 w.2.2 nEntry).bind (fun t => fromAst t.simplify) = .ok g)
   | .error _ => false
 
